@@ -1,3 +1,20 @@
 """Rule modules; importing this package registers every rule with core.RULES."""
 from . import (p01, p02, p03, p04, p05, p06, p07, p08,  # noqa: F401
                p09, p10, p11, p12, p13, p14, p15, p16)
+
+
+def _register_shared():
+    from ..core import rule, RULES
+    from . import p15
+
+    def make(prop):
+        def rs(fx):
+            yield from p15.stateless(fx, prop)
+        return rs
+    for prop in sorted(RULES):
+        if prop == 'C15':
+            continue
+        rule(prop, 'RS', 3, 'statelessness of the anchored functions and their callees: no module-level writes, no memoisation, no mutable defaults')(make(prop))
+
+
+_register_shared()
